@@ -38,8 +38,12 @@ RULE = ("tables of 0-40 entries over 3-10 active key bits embedded at random pos
         "key-outside-mask entries included), 1-5 distinct routes, sources unknown/single/multiple/core/empty with a "
         "default-routable share, targets None and 0..len+1; every minimiser (remove_default_routes, ordered_covering "
         "with and without no_raise, ordered_covering.minimise, minimise_table with several method lists, "
-        "minimise_tables) plus two-stage ordered covering with carried aliases and the internal functions "
-        "_get_insertion_index/_get_best_merge; arbitrary-order overlapping tables for default-route removal; a case "
+        "minimise_tables over 1-4 chips with dict/int/None targets) plus two-stage ordered covering with carried "
+        "aliases, ordered covering with user-supplied alias dictionaries (correspondence only) incl. a stream aimed at "
+        "the dictionary corner cases of _Merge.apply, and the internal functions _get_insertion_index (g = 0..33) / "
+        "_get_best_merge; arbitrary-order overlapping tables for default-route removal; branch counters from wrapped "
+        "_refine_upcheck/_refine_downcheck/_Merge.apply; thorough adds every Good table of <= 4 entries over 2 bits "
+        "and <= 2 entries over 3 bits; a case "
         "is non-trivial when ordered covering applied at least one merge or default-route removal dropped an entry; "
         "distinct = distinct canonical JSON of (table, target)")
 
@@ -199,9 +203,12 @@ def gen_table(rng, kind=None, max_n=40):
                     key |= 1 << b
         if kind == "orth" and any(km_intersect((key, mask), (e[1], e[2])) for e in table):
             continue
-        if kind != "orth" and table and rng.random() < 0.05:
-            key, mask = table[rng.randrange(len(table))][1:3]       # duplicate key/mask
         route = rng.choice(routes)
+        if kind != "orth" and table and rng.random() < 0.06:
+            dup = table[rng.randrange(len(table))]                  # duplicate key/mask
+            key, mask = dup[1:3]
+            if rng.random() < 0.5:
+                route = dup[0]
         table.append([route, key, mask, gen_sources(rng, smode, route, kind == "any")])
     if kind == "sorted":
         table.sort(key=lambda e: generality(e[1], e[2]))
@@ -226,11 +233,92 @@ def gen_target(rng, n):
 METHOD_LISTS = [["rd", "oc"], ["rd", "oc"], ["rd", "oc"], ["oc"], ["rd"], ["oc", "rd"], ["rd", "rd", "oc"]]
 
 
+def refine_km(rng, key, mask):
+    """a key/mask inside (key, mask): some X positions fixed"""
+    for b in range(32):
+        if not (mask >> b) & 1 and not (key >> b) & 1 and rng.random() < 0.15:
+            mask |= 1 << b
+            if rng.random() < 0.5:
+                key |= 1 << b
+    return [key, mask]
+
+
+def merged_km(entries):
+    any_ones, all_ones, all_sel = 0, M32, M32
+    for e in entries:
+        any_ones |= e[1]
+        all_ones &= e[1]
+        all_sel &= e[2]
+    mask = all_sel & ((any_ones ^ ~all_ones) & M32)
+    return [all_ones & mask, mask]
+
+
+def gen_aliases(rng, table):
+    """a user-supplied alias dictionary (documented `aliases` parameter): entries of the table, and
+    key/masks that merges of same-route entries would produce, standing for refinements"""
+    al = {}
+    if not table:
+        return []
+    for _ in range(rng.randint(1, 4)):
+        e = rng.choice(table)
+        km = (e[1], e[2])
+        if rng.random() < 0.4:
+            same = [x for x in table if x[0] == e[0]]
+            km = tuple(merged_km(rng.sample(same, min(len(same), rng.randint(2, 3)))))
+        vals = []
+        disjoint = rng.random() < 0.3
+        for _ in range(rng.randint(1, 3)):
+            v = refine_km(rng, km[0], km[1]) if rng.random() < 0.8 else list(rng.choice(table)[1:3])
+            fixed = [b for b in range(32) if (v[1] >> b) & 1]
+            if disjoint and fixed:
+                v = [v[0] ^ (1 << rng.choice(fixed)), v[1]]      # outside the key/mask it stands for
+            if v not in vals:
+                vals.append(v)
+        al[km] = vals
+    return canon_aliases(al)
+
+
+def gen_corner(rng):
+    """aims at the dictionary corner cases of _Merge.apply: a member whose key/mask equals the merged
+    one (so `aliases.pop` removes the freshly stored set), duplicate member key/masks, an alias entry
+    stored under the merged key/mask"""
+    pos = rng.sample(range(32), rng.randint(4, 6))
+    routes = gen_routes(rng, rng.randint(1, 3))
+    table = []
+    for _ in range(rng.randint(0, 6)):
+        key = mask = 0
+        for b in pos:
+            if rng.random() >= 0.3:
+                mask |= 1 << b
+                if rng.random() < 0.5:
+                    key |= 1 << b
+        table.append([rng.choice(routes), key, mask, 1 << NONE_BIT])
+    route = rng.choice(routes)
+    key = mask = 0
+    for b in pos[1:]:
+        if rng.random() < 0.8:
+            mask |= 1 << b
+            if rng.random() < 0.5:
+                key |= 1 << b
+    wide = [route, key, mask, 1 << NONE_BIT]                       # X in pos[0]
+    narrow = [route, key | (rng.randrange(2) << pos[0]), mask | (1 << pos[0]), 1 << NONE_BIT]
+    table += [wide, narrow] + ([list(narrow)] if rng.random() < 0.5 else []) + ([list(wide)] if rng.random() < 0.3 else [])
+    table.sort(key=lambda e: generality(e[1], e[2]))
+    fixed = [b for b in pos if (mask >> b) & 1]
+    outside = [key ^ (1 << rng.choice(fixed)), mask] if fixed else [key, mask]
+    return {"kind": "sorted", "table": table, "target": gen_target(rng, len(table)), "target2": None,
+            "methods": ["rd", "oc"], "internals": False,
+            "aliases": canon_aliases({(key, mask): [outside] + ([refine_km(rng, key, mask)] if rng.random() < 0.5 else [])})}
+
+
 def gen_case(rng, kind=None):
     kind, table = gen_table(rng, kind)
-    return {"kind": kind, "table": table, "target": gen_target(rng, len(table)),
-            "target2": gen_target(rng, len(table)),
-            "methods": rng.choice(METHOD_LISTS), "internals": rng.random() < 0.3}
+    c = {"kind": kind, "table": table, "target": gen_target(rng, len(table)),
+         "target2": gen_target(rng, len(table)),
+         "methods": rng.choice(METHOD_LISTS), "internals": rng.random() < 0.3}
+    if kind != "any" and rng.random() < 0.35:
+        c["aliases"] = gen_aliases(rng, table)
+    return c
 
 
 # --------------------------------------------------------------------------
@@ -266,6 +354,9 @@ def run_impl(c):
     if "ok" in out["oc_nr"]:
         s1 = out["oc_nr"]["ok"]
         out["oc2"] = call(lambda: oc(s1["table"], None, s1["aliases"], False))
+    if c.get("aliases") is not None:
+        # documented `aliases` parameter: correspondence only (no claim is made for arbitrary dictionaries)
+        out["oc_al"] = call(lambda: oc(T, t2, c["aliases"], True))
     out["oc_none"] = call(lambda: oc(T, None, [], False))
     out["ocmin"] = call(lambda: {"ok": from_impl(ocm.minimise(to_impl(T), t))})
     out["ocmin_none"] = call(lambda: {"ok": from_impl(ocm.minimise(to_impl(T), None))})
@@ -305,6 +396,8 @@ def model_reqs(c, impl):
         s1 = impl["oc_nr"]["ok"]
         reqs.append(("oc2", {"suite": S, "op": "oc", "table": s1["table"], "target": None,
                              "aliases": s1["aliases"], "no_raise": False}))
+    if c.get("aliases") is not None:
+        reqs.append(("oc_al", {"suite": S, "op": "oc", "table": T, "target": t2, "aliases": c["aliases"], "no_raise": True}))
     reqs.append(("oc_none", {"suite": S, "op": "oc", "table": T, "target": None, "aliases": [], "no_raise": False}))
     reqs.append(("ocmin", {"suite": S, "op": "ocmin", "table": T, "target": t}))
     reqs.append(("ocmin_none", {"suite": S, "op": "ocmin", "table": T, "target": None}))
@@ -343,7 +436,7 @@ def eval_cases(ctx, cases):
             idx.append((ci, "m", name))
         # the property oracle on every table the implementation returned
         for name, res in impl.items():
-            tb = out_table(res) if name not in ("best", "ins") else None
+            tb = out_table(res) if name not in ("best", "ins", "oc_al") else None
             if tb is not None:
                 reqs.append({"suite": "c04", "op": "equiv", "a": c["table"], "b": tb})
                 idx.append((ci, "o", name))
@@ -384,6 +477,11 @@ def judge(ctx, c, impl, model, orc):
         sizes = [n] + [reach.get({"rd": "rd", "oc": "ocmin"}[x]) for x in ms]
         best[nm] = None if any(x is None for x in sizes) else min(sizes)
     for name, res in impl.items():
+        if name == "oc_al":
+            if "exc" in res:
+                ctx.violation("undocumented-exception-" + res["exc"], "ordered_covering with aliases raised %s at %s"
+                              % (res["exc"], res.get("where")), desc)
+            continue
         if name in ("best", "ins"):
             if any(isinstance(x, dict) and "exc" in x for x in (res if isinstance(res, list) else [res])):
                 ctx.tag("internal_exception")
@@ -426,6 +524,56 @@ def judge(ctx, c, impl, model, orc):
         nontriv = True
         ctx.tag("default_removed")
     ctx.case({"table": T, "target": c["target"]}, nontriv)
+
+
+# --------------------------------------------------------------------------
+# branch probes: wrap module-level helpers from outside (no source change, behaviour unchanged)
+PROBE = {}
+
+
+def install_probes():
+    from rig.routing_table import ordered_covering as ocm
+    if getattr(ocm, "_c04_probes", False):
+        return
+    ocm._c04_probes = True
+    up, down, ap = ocm._refine_upcheck, ocm._refine_downcheck, ocm._Merge.apply
+
+    def bump(k):
+        PROBE[k] = PROBE.get(k, 0) + 1
+
+    def up2(merge, min_goodness):
+        r = up(merge, min_goodness)
+        bump("br_upcheck_removed" if r[1] else "br_upcheck_unchanged")
+        if r[1] and r[0].goodness > min_goodness:
+            bump("br_upcheck_removed_still_good")
+        return r
+
+    def down2(merge, aliases, min_goodness):
+        r = down(merge, aliases, min_goodness)
+        if r.goodness <= min_goodness:
+            bump("br_downcheck_rejected")
+        elif len(r.entries) < len(merge.entries):
+            bump("br_downcheck_pruned")
+        else:
+            bump("br_downcheck_unchanged")
+        return r
+
+    def apply2(self, aliases):
+        km = (self.key, self.mask)
+        kms = [(self.routing_table[i].key, self.routing_table[i].mask) for i in self.entries]
+        bump("br_apply")
+        if km in aliases:
+            bump("br_apply_overwrites_alias")
+        if km in kms:
+            bump("br_apply_member_has_merged_km")
+        if any(k in aliases for k in kms):
+            bump("br_apply_pops_existing_alias")
+        if len(set(kms)) < len(kms):
+            bump("br_apply_duplicate_member_km")
+        if self.insertion_index == len(self.routing_table):
+            bump("br_apply_insert_at_end")
+        return ap(self, aliases)
+    ocm._refine_upcheck, ocm._refine_downcheck, ocm._Merge.apply = up2, down2, apply2
 
 
 # --------------------------------------------------------------------------
@@ -611,6 +759,11 @@ def run(ctx):
                         "minimise_table is called with at least one minimiser (with methods=() and len(table) == target "
                         "the front end reports failure although the table fits: _identity uses '<')",
                         "CPython: sorted() is stable, dict/set membership semantics"]
+    try:
+        install_probes()
+    except Exception:
+        pass
+    PROBE.clear()
     n = ctx.scale(2000, 40000)
     if ctx.extended:
         n *= 4
@@ -623,6 +776,8 @@ def run(ctx):
             cases.append(gen_case(rng, "any"))
         elif r < 0.14:
             cases.append(gen_mts(rng))
+        elif r < 0.19:
+            cases.append(gen_corner(rng))
         else:
             cases.append(gen_case(rng))
     for i in range(0, len(cases), 500):
@@ -644,6 +799,8 @@ def run(ctx):
         ctx.exhaustive = True
         ctx.extra["exhaustive_scope"] = ("every orthogonal-or-sorted table of <= 4 entries over 2 key bits and of <= 2 entries "
                                          "over 3 key bits, two entry flavours (default-routable E<-W; N with unknown source)")
+    for k, v in PROBE.items():
+        ctx.tags[k] = ctx.tags.get(k, 0) + v
     shrink_findings(ctx)
 
 
